@@ -68,7 +68,10 @@ func C04(c *core.Ctx) {
 	nilSlotDiscipline(c, "R3", sessF, nil)
 	freeListLemma(c, true)
 	c04NotFound(c)
-	c04Ownership(c, "R6")
+	// R6: ownership of SEIDs between the table and the nodes, and - "already released ... is answered
+	// 'session context not found'" - every way a session ends releases its SEID (session-end paths shared
+	// with C01 R6; they include the ownership rules)
+	c01EndPaths(c, "R6", false)
 }
 
 // ordinal numbers the sites on field f within fn in source order (stable key without line numbers).
@@ -735,6 +738,22 @@ func c04Ownership(c *core.Ctx, rule string) {
 		}
 	}
 	c04DeleteArgs(c, rule, rsess, rDel, lSess)
+	// a session's owner pointer and the owner's SEID set change together: Sess.rnode is written only where
+	// the SEID is entered in that node's set (RemoteNode.NewSess); re-pointing a session elsewhere would
+	// leave it in the old node's set and make DeleteSess on the new owner a no-op
+	if rnodeF := p.Field(pkgPfcp, "Sess", "rnode"); rnodeF != nil {
+		n := 0
+		for _, fn := range p.OwnFuncs() {
+			for _, st := range storesToField(fn, rnodeF) {
+				n++
+				c.Check(rule, "owner-writer:"+core.FnName(fn), st.Pos(), fn == p.SSAFn(rNew) && st.Val == ssa.Value(core.Recv(fn)),
+					"Sess.rnode is set only by RemoteNode.NewSess, to the node that records the SEID in its own set")
+			}
+		}
+		c.Floor(rule, n, 1, "stores to Sess.rnode")
+	} else {
+		c.Anchor(rule, "pfcp.Sess.rnode")
+	}
 	// NewSess records the new SEID in the node's set
 	if fn := p.SSAFn(rNew); fn != nil {
 		recorded := false
